@@ -401,6 +401,8 @@ def fold_block(stmts, env):
                 return r
         elif isinstance(st, ast.Raise):
             return ('raise', norm(st.exc) if st.exc is not None else '')
+        elif isinstance(st, ast.Return):
+            return ('return', const(st.value, env) if st.value is not None else None)
         else:
             raise NotConst(norm(st)[:40])
     return ('fall', None)
